@@ -6,6 +6,7 @@ import (
 	hg "github.com/mosaicnetworks/babble/src/hashgraph"
 	"github.com/mosaicnetworks/babble/src/net"
 	"github.com/mosaicnetworks/babble/src/node/state"
+	"github.com/mosaicnetworks/babble/src/peers"
 	"github.com/mosaicnetworks/babble/src/proxy"
 )
 
@@ -21,6 +22,15 @@ func verifCommitHarness() {
 	}
 	vc := verifNewCore(3, self)
 	c := vc.c
+	if !member && verifChoice("joinAcceptedButNotYetEffective", 2) == 1 {
+		// the node's join was committed (it is in the LATEST recorded set, effective
+		// six rounds later) but it is not a validator of this block's round
+		future := peers.NewPeerSet(append(append([]*peers.Peer{}, vc.peers...), verifPeer(self)))
+		if err := vc.store.SetPeerSet(7, future); err != nil {
+			panic(err)
+		}
+		c.validators = future
+	}
 	appFails := verifChoice("applicationFails", 2) == 1
 	stateHash := []byte{verifNondetByte("stateHash0"), verifNondetByte("stateHash1")}
 	block := hg.NewBlock(0, 1, []byte("framehash"), vc.peers, [][]byte{[]byte("tx")}, nil, 7)
